@@ -525,8 +525,12 @@ fn hash<T: ?Sized + Hash>(t: &T) -> u64 {
     let mut hasher = CaoHasher::default();
     t.hash(&mut hasher);
     let result = hasher.finish();
-    debug_assert_ne!(result, 0, "0 hash is reserved");
-    result
+    // 0 is reserved for empty slots
+    if result == 0 {
+        1
+    } else {
+        result
+    }
 }
 
 /// # Safety
